@@ -278,7 +278,9 @@ def first_claim_loop(fn):
             "returns": sorted({_norm(e.resolved).replace(U, "T") for q in yes for e in q.events[start:] if e.kind == "return"}),
             "claimed_all_return": all(q.status == "return" for q in yes),
             "falls_through": all(q.status in (None, "continue") for q in no),
-            "exhausted_raises": all(q.status == "raise" for q in ex.paths if q.status != "return")}
+            "exhausted_raises": all(q.status == "raise" for q in ex.paths if q.status != "return"),
+            "returns_before_loop": sorted({_norm(e.resolved)[:80] for q in ex.paths if q.status == "return" and not any(e2.kind == "loop" for e2 in q.events)
+                                           for e in q.events if e.kind == "return"})}
 
 
 def lookup_next(fn):
